@@ -446,6 +446,9 @@ def scrape_counter():
         problems.append("struct_verifier.rs: how the struct size is accumulated is not recognised")
     lib = read("idlc/src/lib.rs")
     facts["lib_runs_interface_verifier"] = bool(re.search(r"parse_to_mir\(&ast, &mut idl_store\);.*?interface_verifier::InterfaceVerifier::new\(&mir\)\.run_pass\(\);.*?Generator::generate\(&mir\)", lib, re.S))
+    iv = read("idlc_mir_passes/src/interface_verifier.rs")
+    facts["verifier_rejects_second_objarr"] = "has more than one input object array" in iv and "has more than one output object array" in iv
+    facts["verifier_small_objstruct_in_array"] = len(re.findall(r"if let Type::Struct\(\s*Struct::Big\(s\) \| Struct::Small\(s\),?\s*\) = t", iv)) == 2
     facts["counter_checked"] = checked
     facts["counter_limit"] = int(limit.group(1)) if (limit and checked) else 255
     if checked == unchecked:
@@ -457,8 +460,11 @@ def render_counter(facts):
     return ("(* GENERATED by lib/translate.py: arithmetic and limit of idlc_codegen::counts::Counter. *)\nRequire Import Base.\n\n"
             "Definition counter_checked : bool := %s.\nDefinition counter_limit : N := %d.\nDefinition struct_size_checked : bool := %s.\n"
             "(* idlc/src/lib.rs: does Language::generate run the InterfaceVerifier? *)\nDefinition lib_runs_interface_verifier : bool := %s.\n"
+            "(* interface_verifier.rs: a second object array of one direction / an input array of a small object struct *)\n"
+            "Definition verifier_rejects_second_objarr : bool := %s.\nDefinition verifier_small_objstruct_in_array : bool := %s.\n"
             % ("true" if facts["counter_checked"] else "false", facts["counter_limit"], "true" if facts["struct_size_checked"] else "false",
-               "true" if facts["lib_runs_interface_verifier"] else "false"))
+               "true" if facts["lib_runs_interface_verifier"] else "false", "true" if facts["verifier_rejects_second_objarr"] else "false",
+               "true" if facts["verifier_small_objstruct_in_array"] else "false"))
 
 
 def scrape_consts():
